@@ -29,6 +29,7 @@ type tblSpec struct {
 	DupAt     []int      `json:"dup_at,omitempty"` // after sorting-agnostic generation: copy key of row i-1 into row i at these sorted positions
 	Fixed     *gen.Table `json:"fixed,omitempty"`
 	TableSeed int64      `json:"table_seed"`
+	CaseCols  bool       `json:"case_cols,omitempty"` // header names that differ only in letter case
 }
 
 type bigCell struct {
@@ -47,7 +48,18 @@ type ingCfg struct {
 	SpillFault int `json:"spill_fault,omitempty"`
 }
 
+// caseCols are distinct column names that are equal under case folding.
+var caseCols = []string{"id", "ID", "Id", "iD", "idx", "IDX"}
+
 func (s *tblSpec) build() *gen.Table {
+	t := s.buildPlain()
+	if s.CaseCols && len(t.Cols) <= len(caseCols) {
+		t.Cols = append([]string(nil), caseCols[:len(t.Cols)]...)
+	}
+	return t
+}
+
+func (s *tblSpec) buildPlain() *gen.Table {
 	if s.Fixed != nil {
 		return s.Fixed.Clone()
 	}
@@ -301,6 +313,12 @@ func cfgString(c ingCfg) string {
 
 // genTblSpecs returns the seeded table specs shared by C01/C02/C03.
 func randTblSpec(rng *rand.Rand, unique bool) tblSpec {
+	s := randTblSpecPlain(rng, unique)
+	s.CaseCols = rng.Intn(6) == 0
+	return s
+}
+
+func randTblSpecPlain(rng *rand.Rand, unique bool) tblSpec {
 	s := tblSpec{NCols: 1 + rng.Intn(6), TableSeed: rng.Int63(), Unique: unique}
 	switch rng.Intn(12) {
 	case 0:
